@@ -588,6 +588,9 @@ func genOpts(r *gen.Rand, L int) opts {
 		if r.Chance(0.2) {
 			o.Alpha = 0.2 + 4.8*r.Float()
 		}
+		if r.Chance(0.1) {
+			o.Alpha = r.PickF([]float64{100, 250, 1000}) // nearly homogeneous rates: still the gamma model that was asked for
+		}
 	}
 	o.RmGaps = r.Chance(0.35)
 	o.WKind = "nil"
@@ -603,6 +606,20 @@ func genOpts(r *gen.Rand, L int) opts {
 		o.Weights = make([]float64, L)
 		for i := range o.Weights {
 			o.Weights[i] = float64(r.Range(1, 12)) / 4
+		}
+	case 5:
+		// the same relative weights on another scale (normalised to sum to 1, or tiny): the likelihood of a pair is
+		// normalised by its total weight, the scale changes nothing
+		o.WKind = "fractional-tiny-scale"
+		o.Weights = make([]float64, L)
+		tot := 0.0
+		for i := range o.Weights {
+			o.Weights[i] = float64(r.Range(1, 12)) / 4
+			tot += o.Weights[i]
+		}
+		f := r.PickF([]float64{1 / tot, 1e-9, 1e-6 / tot})
+		for i := range o.Weights {
+			o.Weights[i] *= f
 		}
 	case 3, 4:
 		o.WKind = "bootstrap-counts" // multinomial like integer weights, zeros included
